@@ -61,13 +61,90 @@ def Err.tag : Err → String
 
 def zeroIV : Bytes := List.replicate 32 0
 
-/-- Steps 4–7 of RSA_PAD for one `temp_key`: `key_aes_encrypted`. -/
+/-- The named byte strings of `RSAPad` / `DecodeRSAPad` at some point of the execution. -/
+structure W where
+  data : Bytes := []
+  tempKey : Bytes := []
+  dataWithPadding : Bytes := []
+  dataPadReversed : Bytes := []
+  dataWithHash : Bytes := []
+  aesEncrypted : Bytes := []
+  aesEncryptedHash : Bytes := []
+  tempKeyXor : Bytes := []
+  keyAESEncrypted : Bytes := []
+  encryptedData : Bytes := []
+  hash : Bytes := []
+
+def W.get (w : W) : Facts.C14.V → Bytes
+  | .data => w.data | .tempKey => w.tempKey | .dataWithPadding => w.dataWithPadding
+  | .dataPadReversed => w.dataPadReversed | .dataWithHash => w.dataWithHash | .aesEncrypted => w.aesEncrypted
+  | .aesEncryptedHash => w.aesEncryptedHash | .tempKeyXor => w.tempKeyXor | .keyAESEncrypted => w.keyAESEncrypted
+  | .encryptedData => w.encryptedData | .hash => w.hash | .zeroIV => zeroIV | .unknown => []
+
+def W.set (w : W) (v : Facts.C14.V) (b : Bytes) : W :=
+  match v with
+  | .data => { w with data := b } | .tempKey => { w with tempKey := b }
+  | .dataWithPadding => { w with dataWithPadding := b } | .dataPadReversed => { w with dataPadReversed := b }
+  | .dataWithHash => { w with dataWithHash := b } | .aesEncrypted => { w with aesEncrypted := b }
+  | .aesEncryptedHash => { w with aesEncryptedHash := b } | .tempKeyXor => { w with tempKeyXor := b }
+  | .keyAESEncrypted => { w with keyAESEncrypted := b } | .encryptedData => { w with encryptedData := b }
+  | .hash => { w with hash := b } | .zeroIV => w | .unknown => w
+
+/-- concatenation of the named strings. -/
+def W.cat (w : W) : List Facts.C14.V → Bytes
+  | [] => []
+  | [v] => w.get v
+  | v :: vs => w.get v ++ w.cat vs
+
+/-- what the `append(dst, src...)` calls with destination `dst` append, in source order. -/
+def W.appended (w : W) (apps : List (Facts.C14.V × Facts.C14.V)) (dst : Facts.C14.V) : Bytes :=
+  w.cat ((apps.filter (fun a => a.1 == dst)).map (·.2))
+
+/-- `copy(dst, src)` (equal lengths): `dst` becomes `src`. -/
+def W.copied (w : W) (copies : List (Facts.C14.V × Facts.C14.V)) (dst : Facts.C14.V) : W :=
+  match copies.find? (fun a => a.1 == dst) with
+  | some (_, src) => w.set dst (w.get src)
+  | none => w
+
+/-- `reverseBytes(v)` for each listed `v`. -/
+def W.reversed (w : W) : List Facts.C14.V → W
+  | [] => w
+  | v :: vs => (w.set v (w.get v).reverse).reversed vs
+
+/-- `ige.EncryptBlocks/DecryptBlocks(aes.NewCipher(key), iv, dst, src)` with the regenerated operands. -/
+def W.ige (w : W) (f : Bytes → Bytes → Bytes → Bytes) (key args : List Facts.C14.V) : W :=
+  match key, args with
+  | [k], [iv, dst, src] => w.set dst (f (w.get k) (w.get iv) (w.get src))
+  | _, _ => w
+
+/-- `xor.Bytes(dst, a, b)` with the regenerated operands. -/
+def W.xored (w : W) : List Facts.C14.V → W
+  | [dst, a, b] => w.set dst (Ige.xorB (w.get a) (w.get b))
+  | _ => w
+
+/-- `x := src[lo:hi]` for the slice statement whose left-hand side is `dst`. -/
+def W.sliced (w : W) (slices : List (Facts.C14.V × Facts.C14.V × Option Nat × Option Nat)) (dst : Facts.C14.V) : W :=
+  match slices.find? (fun a => a.1 == dst) with
+  | some (_, src, lo, hi) =>
+    let b := w.get src
+    let b := match hi with | some h => b.take h | none => b
+    let b := match lo with | some l => b.drop l | none => b
+    w.set dst b
+  | none => w
+
+/-- Steps 2, 4–7 of RSA_PAD for one `temp_key`: `key_aes_encrypted`.  Which named byte string is
+copied, reversed, hashed, encrypted, xored and concatenated is **regenerated from the source**
+(`Facts.C14.enc…`) and interpreted here. -/
 def keyAesEncrypted (P : Prims) (dataWithPadding tempKey : Bytes) : Bytes :=
-  let dataPadReversed := dataWithPadding.reverse
-  let dataWithHash := dataPadReversed ++ P.sha256 (tempKey ++ dataWithPadding)
-  let aesEncrypted := Ige.enc (P.aesEnc tempKey) zeroIV dataWithHash
-  let tempKeyXor := Ige.xorB tempKey (P.sha256 aesEncrypted)
-  tempKeyXor ++ aesEncrypted
+  let w : W := { dataWithPadding := dataWithPadding, tempKey := tempKey }
+  let w := (w.copied Facts.C14.encCopies .dataPadReversed).reversed Facts.C14.encReverseArg
+  let w := w.set .dataWithHash
+    (w.appended Facts.C14.encAppends .dataWithHash ++ P.sha256 (w.cat Facts.C14.encHashWrites))
+  let w := w.ige (fun k iv src => Ige.enc (P.aesEnc k) iv src) Facts.C14.encCipherKey Facts.C14.encIgeArgs
+  let w := w.set .aesEncryptedHash (P.sha256 (w.cat Facts.C14.encSum256Arg))
+  let w := w.xored Facts.C14.encXorArgs
+  let w := w.set .keyAESEncrypted (w.appended Facts.C14.encAppends .keyAESEncrypted)
+  w.cat (Facts.C14.encRsaArg.take 1)
 
 /-- The `for { … }` loop of `RSAPad`: one `temp_key` per round, retried while
 `key_aes_encrypted ≥ N`.  `fuel` bounds the rounds (the tape runs out first). -/
@@ -90,18 +167,21 @@ def rsaPad (P : Prims) (Q : NumPrims) (key : PubKey) (data tape : Bytes) : Excep
     let dataWithPadding := data ++ tape.take (dataWithPaddingLength - data.length)
     rsaPadLoop P Q key dataWithPadding tape.length (tape.drop (dataWithPaddingLength - data.length))
 
-/-- `crypto.DecodeRSAPad(data, key)`. -/
+/-- `crypto.DecodeRSAPad(data, key)`; slices, xor / cipher / hash operands and the reversed buffer are
+**regenerated** (`Facts.C14.dec…`) and interpreted. -/
 def decodeRsaPad (P : Prims) (Q : NumPrims) (key : PrivKey) (data : Bytes) : Except Err Bytes :=
   match rsaDecrypt Q key data rsaLen with
   | none => .error .invalid
   | some encryptedData =>
-    let tempKeyXor := encryptedData.take tempKeySize
-    let aesEncrypted := encryptedData.drop tempKeySize
-    let tempKey := Ige.xorB tempKeyXor (P.sha256 aesEncrypted)
-    let dataWithHash := Ige.dec (P.aesDec tempKey) zeroIV aesEncrypted
-    let dataWithPadding := (dataWithHash.take dataWithPaddingLength).reverse
-    let hash := dataWithHash.drop dataWithPaddingLength
-    if hash = P.sha256 (tempKey ++ dataWithPadding) then .ok dataWithPadding else .error .mismatch
+    let w : W := ({} : W).set Facts.C14.decRsaDst encryptedData
+    let w := (w.sliced Facts.C14.decSlices .tempKeyXor).sliced Facts.C14.decSlices .aesEncrypted
+    let w := w.set .aesEncryptedHash (P.sha256 (w.cat Facts.C14.decSum256Arg))
+    let w := w.xored Facts.C14.decXorArgs
+    let w := w.ige (fun k iv src => Ige.dec (P.aesDec k) iv src) Facts.C14.decCipherKey Facts.C14.decIgeArgs
+    let w := (w.sliced Facts.C14.decSlices .dataWithPadding).reversed Facts.C14.decReverseArg
+    let w := w.sliced Facts.C14.decSlices .hash
+    if w.get Facts.C14.decCompare = P.sha256 (w.cat Facts.C14.decHashWrites) then .ok w.dataWithPadding
+    else .error .mismatch
 
 /-- `crypto.RSAEncryptHashed(data, key, randomSource)`. -/
 def rsaEncryptHashed (P : Prims) (Q : NumPrims) (key : PubKey) (data tape : Bytes) : Except Err Bytes :=
